@@ -43,7 +43,12 @@ def run_property(pid, tier, seed, replay=None):
         cov['discharged'] = len(cq['proved']) + (len(getattr(mod, 'COMPUTED_OBLIGATIONS', [])) if cq['proved'] else 0)
         cov['theorems'] = {t: cq['assumptions'].get(t, 'NOT PROVED') for t in cq['theorems']}
         cov['coq_build_s'] = cq.get('build_s')
-        cov['theorem_notes'] = getattr(mod, 'THEOREM_NOTES', {})
+        cov['theorem_notes'] = dict(getattr(mod, 'THEOREM_NOTES', {}))
+        try:   # one source of truth for what the theorems cover: the claim text of MANIFEST.json (tools/mkmanifest.py)
+            mf = json.load(open(os.path.join(X.VERIF, 'MANIFEST.json')))
+            cov['theorem_notes']['scope'] = [c for c in mf['checks'] if c['property_id'] == pid][0]['level_claimed']['text']
+        except Exception:
+            pass
         log('coq: %d/%d theorems of %s check (%.0fs)' % (len(cq['proved']), len(cq['theorems']), ', '.join(os.path.basename(f) for f in cq.get('files', [])), cq.get('build_s', 0)))
         proof_broken = None
         if cq['forbidden']:
